@@ -18,14 +18,15 @@ HORIZON = {"quick": 400, "thorough": 3600}
 PAIRS = ["hamming74+syndrome", "hamming74+bruteforce", "hamming-r+syndrome", "bch15_7+bm", "bch15_5+bm", "rm13+reed", "rep5+bruteforce", "cyclic7+syndrome",
          "tree+bp", "tree+minsum", "spc4+wagner", "polar8_4+sc", "polar8_4+polarbp", "rm13+softrm", "polar16_8+sc",
          "polar8_4+polarbp1", "polar8_4+polarbp1ms", "polar16_8+polarbp2",
-         "polar8_4i+sc", "polar16_8i+sc", "polar8_4o+sc"]        # interleaved (polar_i=True) encoders and frozen ones with the SC decoder      # smallest iteration budgets (one sweep already converges on these links)
+         "polar8_4i+sc", "polar16_8i+sc", "polar8_4o+sc",
+         "hamming-l0246+syndrome", "bch15_7-odd+bm", "cyclic7-l6310+syndrome"]   # information sets that are neither contiguous nor ascending        # interleaved (polar_i=True) encoders and frozen ones with the SC decoder      # smallest iteration budgets (one sweep already converges on these links)
 
 
 def bounds(tier):
     return {"pairs": PAIRS, "messages": "all 2^k", "flip_patterns": "all of weight <= t", "displacement": "0.49*dmin x 8 directions"}
 
 
-N_OF = {"hamming74": 7, "hamming-r": 7, "bch15_7": 15, "bch15_5": 15, "rm13": 8, "rep5": 5, "cyclic7": 7, "tree": 6, "spc4": 5, "polar8_4": 8, "polar16_8": 16, "polar8_4i": 8, "polar16_8i": 16, "polar8_4o": 8}
+N_OF = {"hamming74": 7, "hamming-r": 7, "bch15_7": 15, "bch15_5": 15, "rm13": 8, "rep5": 5, "cyclic7": 7, "tree": 6, "spc4": 5, "polar8_4": 8, "polar16_8": 16, "polar8_4i": 8, "polar16_8i": 16, "polar8_4o": 8, "hamming-l0246": 7, "bch15_7-odd": 15, "cyclic7-l6310": 7}
 
 
 def cases(tier, seed):
@@ -59,7 +60,9 @@ def build_pair(pr):
            "tree": lambda: E.LDPCCodeEncoder(check_matrix=torch.tensor([[1.0, 1, 0, 1, 0, 0], [0, 1, 1, 0, 1, 0], [0, 0, 0, 1, 1, 1]])),
            "spc4": lambda: E.SingleParityCheckCodeEncoder(4), "polar8_4": lambda: E.PolarCodeEncoder(4, 8, frozen_zeros=True), "polar16_8": lambda: E.PolarCodeEncoder(8, 16),
            "polar8_4i": lambda: E.PolarCodeEncoder(4, 8, frozen_zeros=True, polar_i=True), "polar16_8i": lambda: E.PolarCodeEncoder(8, 16, polar_i=True),
-           "polar8_4o": lambda: E.PolarCodeEncoder(4, 8, frozen_zeros=False)}[code]()
+           "polar8_4o": lambda: E.PolarCodeEncoder(4, 8, frozen_zeros=False),
+           "hamming-l0246": lambda: E.HammingCodeEncoder(3, information_set=[0, 2, 4, 6]), "bch15_7-odd": lambda: E.BCHCodeEncoder(4, 5, information_set=[1, 3, 5, 7, 9, 11, 13]),
+           "cyclic7-l6310": lambda: E.CyclicCodeEncoder(7, generator_polynomial=0b1011, information_set=[6, 3, 1, 0])}[code]()
     d = {"syndrome": lambda: D.SyndromeLookupDecoder(enc), "bruteforce": lambda: D.BruteForceMLDecoder(enc), "bm": lambda: D.BerlekampMasseyDecoder(enc), "reed": lambda: D.ReedMullerDecoder(enc),
          "bp": lambda: D.BeliefPropagationDecoder(enc, bp_iters=12), "minsum": lambda: D.MinSumLDPCDecoder(enc, bp_iters=12), "wagner": lambda: D.WagnerSoftDecisionDecoder(enc),
          "sc": lambda: D.SuccessiveCancellationDecoder(enc), "polarbp": lambda: D.BeliefPropagationPolarDecoder(enc, bp_iters=10),
@@ -68,7 +71,7 @@ def build_pair(pr):
     soft = dec in ("bp", "minsum", "wagner", "sc", "polarbp", "polarbp1", "polarbp1ms", "polarbp2", "softrm")
     t = None
     if not soft:
-        dmin = {"hamming74": 3, "hamming-r": 3, "bch15_7": 5, "bch15_5": 7, "rm13": 4, "rep5": 5, "cyclic7": 3}[code]
+        dmin = {"hamming74": 3, "hamming-r": 3, "bch15_7": 5, "bch15_5": 7, "rm13": 4, "rep5": 5, "cyclic7": 3, "hamming-l0246": 3, "bch15_7-odd": 5, "cyclic7-l6310": 3}[code]
         t = (dmin - 1) // 2
     return enc, d, soft, t
 
